@@ -2,6 +2,7 @@ verus! {
 
 #[derive(PartialEq)]
 enum PollState { New, Waiting, Notified, Done }
+pub assume_specification[ <PollState as PartialEq>::eq ](a: &PollState, b: &PollState) -> (r: bool) ensures r == (*a == *b);
 
 struct WaitQueueEntry {
     task: Option<Waker>,
@@ -19,28 +20,40 @@ impl SemaphoreState {
     spec fn ids(&self) -> Seq<int> { self.waiters.ids() }
     spec fn heap(&self) -> Map<int, WaitQueueEntry> { self.waiters.heap() }
 
-    spec fn dom_ok(&self) -> bool {
-        self.waiters.wf()
+    spec fn inv(&self) -> bool {
+        &&& self.waiters.wf()
+        &&& forall|i: int| 0 <= i < self.ids().len() ==>
+              ((#[trigger] self.heap()[self.ids()[i]]).state is Waiting) || (self.is_fair && i == self.ids().len() - 1 && self.heap()[self.ids()[i]].state is Notified)
+    }
+
+    /// C06: f = live futures holding an unconsumed wake-up outside the queue (unfair mode only)
+    spec fn inv_wake(&self, f: int) -> bool {
+        self.ids().len() > 0 ==> {
+            let head = self.heap()[self.ids().last()];
+            head.required_permits > self.permits || (if self.is_fair { head.state is Notified } else { f >= 1 })
+        }
     }
 
     /// Wakes up the last waiter and removes it from the wait queue
     fn wakeup_waiters(&mut self)
-      requires old(self).dom_ok(),
-      ensures final(self).dom_ok(),
+      requires old(self).inv(),
+      ensures final(self).inv(),
         final(self).permits == old(self).permits,
         final(self).is_fair == old(self).is_fair,
-        // C06: afterwards the oldest queued request either does not fit, or somebody holds a wake-up
-        final(self).ids().len() > 0 ==>
-           final(self).heap()[final(self).ids().last()].required_permits > final(self).permits
-           || exists|id: int| final(self).heap().contains_key(id) && (#[trigger] final(self).heap()[id]).state is Notified,
+        final(self).ids().len() <= old(self).ids().len(),
+        final(self).is_fair ==> final(self).ids() == old(self).ids(),
+        // [C06] establishes the wake-up invariant, counting the waiters it just notified and unlinked
+        forall|g: int| g >= old(self).ids().len() - final(self).ids().len() ==> #[trigger] final(self).inv_wake(g),
     {
         // Wake as many tasks as the permits allow
         let mut available = self.permits;
 
         loop
-          invariant self.dom_ok(), self.permits == old(self).permits, self.is_fair == old(self).is_fair,
+          invariant self.inv(), self.permits == old(self).permits, self.is_fair == old(self).is_fair,
             available <= self.permits,
-            available < self.permits ==> exists|id: int| self.heap().contains_key(id) && (#[trigger] self.heap()[id]).state is Notified,
+            self.ids().len() <= old(self).ids().len(),
+            self.ids().len() == old(self).ids().len() ==> available == self.permits,
+            self.is_fair ==> self.ids() == old(self).ids(),
           decreases self.ids().len(),
         {
             match self.waiters.peek_last_mut() {
@@ -82,6 +95,24 @@ impl SemaphoreState {
                 }
             }
         }
+    }
+
+    /// Releases a certain amount of permits back to the semaphore
+    fn release(&mut self, permits: usize)
+      requires old(self).inv(), old(self).permits + permits <= usize::MAX,
+      ensures final(self).inv(), final(self).permits == old(self).permits + permits,
+        final(self).is_fair == old(self).is_fair,
+        // [C06]
+        permits > 0 ==> forall|g: int| g >= old(self).ids().len() - final(self).ids().len() ==> #[trigger] final(self).inv_wake(g),
+    {
+        if permits == 0 {
+            return;
+        }
+        // TODO: Overflow check
+        self.permits += permits;
+
+        // Wakeup the last waiter
+        self.wakeup_waiters();
     }
 }
 }
